@@ -35,6 +35,9 @@ func main() {
 	if run.Thorough() {
 		run.SetBudget(25 * time.Minute)
 	}
+	if *replay != "" {
+		run.SetReplay(*replay)
+	}
 	fn()
 	run.Finish()
 }
